@@ -41,6 +41,10 @@ inductive Out (K V : Type)
   | keys (ks : List K) | vals (vs : List V) | ents (es : List (K × V))
   deriving DecidableEq, Repr
 
+def Out.isTrue {K V : Type} : Out K V → Bool
+  | .bool b => b
+  | _ => false
+
 def Out.ofVal {K V : Type} : Option V → Out K V
   | some v => .val v
   | Option.none => .none
